@@ -116,7 +116,10 @@ func trackingDialer(cl *sim.Cluster, dl *dialLog, fault func(addr string, n int)
 
 // judge checks the dial log; quiescent says whether "at most one open
 // connection per address" is to be asserted as well.
-func (dl *dialLog) judge(c *fw.Ctx, id, descr string, faultFree, quiescent bool) {
+func (dl *dialLog) judge(c *fw.Ctx, id, descr string, faultFree, quiescent bool, cls ...*sim.Cluster) {
+	if len(cls) > 0 {
+		dl.judgeDropped(c, id, descr, cls[0])
+	}
 	dl.mu.Lock()
 	recs := append([]*dialRec{}, dl.recs...)
 	dead := map[string][]time.Time{}
@@ -188,6 +191,52 @@ func (dl *dialLog) judge(c *fw.Ctx, id, descr string, faultFree, quiescent bool)
 			if open > 1 {
 				c.Violate(id, "conn:several-open-connections", fmt.Sprintf("%d connections to %s are open at quiescence: %s", open, addr, descr), descr)
 			}
+		}
+	}
+}
+
+// judgeDropped: a connection the client has closed (declared dead) must have
+// experienced something: an operation on its client side failed, or the server
+// side of it was killed or answered by an injected fault. A healthy connection
+// is reused, never dropped.
+func (dl *dialLog) judgeDropped(c *fw.Ctx, id, descr string, cl *sim.Cluster) {
+	dl.mu.Lock()
+	recs := append([]*dialRec{}, dl.recs...)
+	dl.mu.Unlock()
+	evs := cl.Log.Snapshot()
+	simConn := map[string]int64{} // client's local address -> server-side connection id
+	for _, e := range evs {
+		if e.Kind == "accept" {
+			simConn[e.Info] = e.Conn
+		}
+	}
+	for _, r := range recs {
+		if !r.ok || r.conn == nil {
+			continue
+		}
+		ct, _ := r.closedT.Load().(time.Time)
+		if ct.IsZero() {
+			continue
+		}
+		c.Count("closed_connections_checked", 1)
+		faulty := false
+		for _, e := range r.conn.Events() {
+			if e.Err != "" && e.Kind != faultconn.Close {
+				faulty = true
+			}
+		}
+		if sid, ok := simConn[r.conn.LocalAddr().String()]; ok {
+			for _, e := range evs {
+				if e.Conn == sid && (e.Kind == "conn-kill" || e.Kind == "fault") {
+					faulty = true
+				}
+			}
+		} else {
+			faulty = true // cannot be attributed: not judged
+		}
+		if !faulty {
+			c.Violate(id, "conn:healthy-connection-dropped", fmt.Sprintf("the client closed its connection to %s (local %s) although no operation on it had failed and the server had neither killed it nor answered with a fault: %s",
+				r.addr, r.conn.LocalAddr(), descr), descr)
 		}
 	}
 }
@@ -279,8 +328,20 @@ func runC20Case(c *fw.Ctx, id string, cs c20Case) {
 	do := func(key string) error {
 		ctx, cancel := context.WithTimeout(context.Background(), 30*time.Second)
 		defer cancel()
-		opid := fmt.Sprintf("%s%s-%d", sim.OpIDPrefix, id, atomic.AddInt32(&opn, 1))
+		n := atomic.AddInt32(&opn, 1)
+		opid := fmt.Sprintf("%s%s-%d", sim.OpIDPrefix, id, n)
 		g, _ := hrpc.NewGetStr(ctx, "t", key, hrpc.Families(map[string][]string{"echo": {opid}}))
+		if n%3 == 0 { // a batch over this key and its neighbours
+			k2 := fmt.Sprintf("%03d", (int(n)*37)%1000)
+			g2, _ := hrpc.NewGetStr(ctx, "t", k2, hrpc.Families(map[string][]string{"echo": {opid + "b"}}))
+			res, _ := client.SendBatch(ctx, []hrpc.Call{g, g2})
+			for _, x := range res {
+				if x.Error != nil {
+					return x.Error
+				}
+			}
+			return nil
+		}
 		_, err := client.Get(g)
 		return err
 	}
@@ -355,7 +416,7 @@ func runC20Case(c *fw.Ctx, id string, cs c20Case) {
 		c.Violate(id, "conn:request-failed", fmt.Sprintf("%d request(s) failed: %s", n, cs), cs)
 	}
 	time.Sleep(5 * time.Millisecond)
-	dl.judge(c, id, cs.String(), cs.Fault == "" || cs.Fault == "split-lonely" || cs.Fault == "probe-opening", true)
+	dl.judge(c, id, cs.String(), cs.Fault == "" || cs.Fault == "split-lonely" || cs.Fault == "probe-opening", true, cl)
 	if cs.Fault == "probe-opening" {
 		c.Count("probe_opening_runs", 1)
 	}
@@ -372,7 +433,7 @@ func init() {
 			"closing the connection, first dial refused, read error on the first connection, in-place split of a region that is " +
 			"alone on its server, first probe of a region answered 'region opening' (in both no connection fails)}. The client-side dial log must show " +
 			"one dial per address in fault-free runs, every re-dial only after all earlier connections to that address were closed " +
-			"by the client, and at most one open connection per address at quiescence. distinct = configuration+seed; non-trivial " +
+			"by the client, no connection closed by the client unless an operation on it failed or the server killed it / answered it with a fault, and at most one open connection per address at quiescence. distinct = configuration+seed; non-trivial " +
 			"= more than one region or more than one first user",
 		Assumptions: []string{"'declared dead' is observed as the client removing the connection from its cache (its log statement) or closing it, whichever the dial log shows first"},
 		Plan: func(tier string) fw.Plan {
